@@ -16,7 +16,7 @@ use refchess::{Color, Kind, Pos};
 use serde_json::{json, Value};
 use std::cell::Cell;
 
-pub const RULE: &str = "positions as in C05 (small quiescence trees, uninterrupted search of T nodes) x expiry points: ALL k in 1..T-1 when T <= the enumeration bound (exhaustive over crash points for that position), otherwise generated k stratified over the search; variants with 1..3 interrupted searches in a row (different k, depth or a neighbouring position of the same game) before the completed follow-up. For every interruption: fresh Searcher, node-count deadline k, find_best_move (interrupted). Oracle: (1) repetition-history snapshot after == before; (2) every table entry left behind is a true (depth,bound,score) claim about the reference minimax value of its position; (3) a completed follow-up fixed-depth search reports the reference value and a move attaining it (judged when no deeper cached entry was reused); (4) on K v K, K+N v K, K+B v K no follow-up of any depth reports |score| >= 32767. Non-trivial = 1 <= k < T and the interrupted search stored >= 1 entry; distinct by (FEN, depth, k-sequence).";
+pub const RULE: &str = "positions as in C05 (small quiescence trees, uninterrupted search of T nodes) x expiry points: ALL k in 1..T-1 when T <= the enumeration bound (exhaustive over crash points for that position), otherwise generated k stratified over the search; variants with 1..3 interrupted searches in a row (different k, depth or a neighbouring position of the same game) before the completed follow-up. For every interruption: fresh Searcher, node-count deadline k, find_best_move (interrupted). Part 'last-iteration': many positions (tiny ones searched to depth 5..7, small ones to 3..5), 14 deadlines each, all inside the LAST iteration (its start is read from the engine's own info record). Oracle: (1) repetition-history snapshot after == before; (2) every table entry left behind is a true (depth,bound,score) claim about the reference minimax value of its position; (3) a completed follow-up fixed-depth search reports the reference value and a move attaining it (judged when no deeper cached entry was reused); (4) on K v K, K+N v K, K+B v K no follow-up of any depth reports |score| >= 32767. Non-trivial = 1 <= k < T and the interrupted search stored >= 1 entry; distinct by (FEN, depth, k-sequence).";
 
 thread_local! {
     static REF_CAP: Cell<u64> = Cell::new(60_000);
@@ -211,7 +211,15 @@ pub fn judge_sequence(p: &Pos, d: u8, seq: &[u64], t: u64, kind: &str, rs: &mut 
         stats.exclude("audit skipped: deeper cached result reused during the interrupted searches");
     }
     stats.class_n("stores_made_after_deadline", searcher.verif.aborted_store_keys.len() as u64);
-    // (3) completed follow-up
+    // (3) completed follow-up.  When a deeper cached result was reused INSIDE the interrupted
+    // searches, the entries they stored may carry values of deeper subtrees under their nominal
+    // depth; a follow-up that reuses such an entry at its nominal depth (a same-depth hit, which the
+    // deeper-hit counter of the follow-up does not see) legitimately reports a deeper value.  Such
+    // cases are not judged by value (the history snapshot above was).
+    if searcher.verif.tt_deeper_hits.get() > 0 {
+        stats.exclude("follow-up not judged: deeper cached result reused during the interrupted searches");
+        return Ok(stored);
+    }
     follow_up(&mut searcher, rs, p, d, &ctx, seq, stats)?;
     if stored >= 1 && k < t {
         stats.nontrivial(&(p.fen4(), d, seq.to_vec()));
@@ -286,6 +294,73 @@ fn judge_bare(p: &Pos, d: u8, ks: &[u64], fd: u8, stats: &mut Stats) -> Verdict 
     Ok(())
 }
 
+/// Part 'last-iteration': MANY positions, few expiry points each, all of them inside the LAST
+/// iteration of a deeper iterative search (where an engine decides what to keep of an unfinished
+/// iteration): tiny positions searched to depth 5..7, small ones to 3..5.  The node count at which
+/// the last-but-one iteration completed is read from the engine's own info record; 14 deadlines are
+/// spread over the rest.  Same oracle (history snapshot, audit of every entry left behind,
+/// completed follow-up).
+fn check_last_iteration(bytes: &[u8], stats: &mut Stats) -> Verdict {
+    let mut s = Src::new(bytes);
+    let p = match s.weighted(&[45, 25, 30]) {
+        0 => {
+            let n = 1 + s.below(2);
+            gen::g_place(&mut s, n)
+        }
+        1 => {
+            let n = 2 + s.below(2);
+            gen::g_place(&mut s, n)
+        }
+        _ => gen::g_small(&mut s).0,
+    };
+    if p.legal_moves().is_empty() {
+        stats.exclude("terminal root");
+        return Ok(());
+    }
+    let men = p.men();
+    let d: u8 = match men {
+        0..=4 => 5 + s.below(3) as u8,
+        5 => 4 + s.below(3) as u8,
+        6..=7 => 3 + s.below(2) as u8,
+        8..=10 => 3,
+        _ => 2 + s.below(2) as u8,
+    };
+    let fen = eng::fen(&p);
+    let mut rs = RefSearch::new(REF_CAP.with(|c| c.get()).max(600_000));
+    if let Err(a) = rs.v(&p, d) {
+        stats.exclude(abort_reason(&a));
+        return Ok(());
+    }
+    // the uninterrupted search: total nodes and the nodes at which each iteration completed
+    let mut s0 = Searcher::new();
+    s0.verif_set_hard_cap(Some(400_000));
+    let b = eng::to_board(&p);
+    if std::panic::catch_unwind(std::panic::AssertUnwindSafe(|| s0.find_best_move(&b, d, None))).is_err() {
+        stats.exclude("uninterrupted search larger than the per-case bound");
+        return Ok(());
+    }
+    let t = s0.verif_nodes();
+    let infos = s0.verif_timer().verif.infos.borrow().clone();
+    drop(s0);
+    let before_last = infos.iter().filter(|i| i.0 + 1 == d).map(|i| i.2).max().unwrap_or(0);
+    if t < before_last + 3 {
+        stats.exclude("last iteration too small to interrupt");
+        return Ok(());
+    }
+    let mut tree = Vec::new();
+    tree_positions(&p, d, &mut tree, 6000);
+    let span = t - before_last - 1;
+    stats.class(&format!("last_iteration_depth_{}", d));
+    for i in 0..14u64 {
+        let k = before_last + 1 + (s.u16() as u64 + i * 65536) * span / (14 * 65536);
+        let k = k.clamp(1, t - 1);
+        judge_sequence(&p, d, &[k], t, "last-iteration", &mut rs, &tree, stats)?;
+        stats.class("deadlines_inside_the_last_iteration");
+    }
+    stats.sample(|| json!({"fen": fen, "depth": d, "uninterrupted_nodes": t, "last_but_one_iteration_completed_at_node": before_last, "deadlines": 14}));
+    Ok(())
+}
+
 pub fn run(tier: Tier, seed: u64, known: &Known) -> PropRun {
     let mut run = PropRun::new("fault_enumeration", RULE);
     run.assumptions = vec![
@@ -305,6 +380,16 @@ pub fn run(tier: Tier, seed: u64, known: &Known) -> PropRun {
     let (st, fl) = run_part(&part, seed, known, |b, st| {
         setp();
         check(b, st)
+    });
+    run.stats.merge(st);
+    if fl.is_some() {
+        run.failure = fl;
+        return run;
+    }
+    let part = Part { name: "last-iteration", cases: tier.pick(320, 20_000), min_len: 24, max_len: 300, max_shrink: 60, threads: threads() };
+    let (st, fl) = run_part(&part, seed, known, |b, st| {
+        setp();
+        check_last_iteration(b, st)
     });
     run.stats.merge(st);
     if fl.is_some() {
@@ -346,6 +431,7 @@ pub fn replay(part: &str, bytes: &[u8], case: &Value, stats: &mut Stats) -> Verd
     }
     match part {
         "bare" => check_bare(bytes, stats),
+        "last-iteration" => check_last_iteration(bytes, stats),
         _ => check(bytes, stats),
     }
 }
